@@ -648,6 +648,8 @@ class Evaluator:
                     return V(INT, fresh('junk', z3.IntSort()))
                 return tuple_parts(base)[i]
             raise OutOfSubset('tuple index not constant')
+        if isinstance(base.ty, TAbs) and base.ty.name in getattr(self.engine, 'opaque_lists', ()):
+            base = self.engine.items_of(base, ctx)
         if isinstance(base.ty, TList):
             i = to_int(self.unwrap_opt(idx, ctx))
             n = list_len(base)
